@@ -242,8 +242,8 @@ pub fn c17_char_3_4_bytes() {
 }
 
 crate::harnesses! {
-    #[kani::unwind(4)] c17_map_repeated_key: "quick", "ser::to_value -> Serializer::serialize_map, SerializeMap::serialize_key/serialize_value/end, KeySerializer::serialize_str (map = H1 model under Kani)", "entry stream a,b,a with symbolic i64 values";
-    #[kani::unwind(4)] c17_seq_tuple_struct: "quick", "ser::to_value -> serialize_seq/tuple/struct, SerializeVec, SerializeMap as SerializeStruct", "seq(2), tuple(2), struct{p,q}; all i32/u16/i64/bool payloads";
+    #[kani::unwind(4)] c17_map_repeated_key: "off", "ser::to_value -> Serializer::serialize_map, SerializeMap::serialize_key/serialize_value/end, KeySerializer::serialize_str (map = H1 model under Kani)", "entry stream a,b,a with symbolic i64 values";
+    #[kani::unwind(4)] c17_seq_tuple_struct: "off", "ser::to_value -> serialize_seq/tuple/struct, SerializeVec, SerializeMap as SerializeStruct", "seq(2), tuple(2), struct{p,q}; all i32/u16/i64/bool payloads";
     #[kani::unwind(6)] c17_char_1_2_bytes: "quick", "ser::to_value -> Serializer::serialize_char", "every char up to U+07FF";
     #[kani::unwind(6)] c17_char_3_4_bytes: "quick", "ser::to_value -> Serializer::serialize_char", "every char from U+0800 (surrogates excluded)";
     #[kani::unwind(2)] c17_signed: "quick", "ser::to_value -> Serializer::serialize_i8/i16/i32/i64; Value::json; serde_json::to_value", "all values of i8, i16, i32, i64";
